@@ -111,7 +111,17 @@ func init() {
 			case 0: // stub stage
 				body := trivialBody()
 				seed := int64(r.Intn(100000))
+				switch k := r.Intn(100); {
+				case k < 10: // 0 is a seed like any other (and what an omitted seed decodes to)
+					seed = 0
+				case k < 14:
+					seed = -int64(r.Intn(1000)) - 1
+				}
 				body["biasApplyRandomSeed"] = seed
+				if seed == 0 && r.chance(0.4) {
+					delete(body, "biasApplyRandomSeed")
+					o.count("seed-omitted")
+				}
 				avail := names
 				if r.chance(0.15) {
 					avail = names[:r.rangeInt(1, 3)]
